@@ -17,7 +17,7 @@ SPEC = {
              'non-trivial when glob returned at least one path.'),
     'bounds': {'quick': {'trees_per_shard': 50, 'patterns_per_tree': 22}, 'thorough': {'trees': 'until the time budget', 'patterns_per_tree': 40}},
     'floor': {'quick': 8000, 'thorough': 100000},
-    'required_counters': ['elements_checked', 'root_mode_comparisons', 'absolute_patterns', 'dir_fd_runs', 'chdir_runs', 'iglob_equal'],
+    'required_counters': ['mixed_absolute_relative_lists', 'elements_checked', 'root_mode_comparisons', 'absolute_patterns', 'dir_fd_runs', 'chdir_runs', 'iglob_equal'],
     'budget': {'quick': 45, 'thorough': 480},
     'shard_timeout': {'quick': 400, 'thorough': 1500},
     'assumptions': ['os.scandir order is stable for an unchanged directory within one process',
@@ -32,7 +32,7 @@ def classify(tr, pat_text, fn, elem, what):
     return None
 
 
-def check_elements(ctx, tr, res, pat_text, fn, absolute, trail, single, wit):
+def check_elements(ctx, tr, res, pat_text, fn, absolute, trail, single, wit, mixed=False):
     root = tr.root
     for e in res:
         ctx.evals()
@@ -41,7 +41,7 @@ def check_elements(ctx, tr, res, pat_text, fn, absolute, trail, single, wit):
         problems = []
         if not os.path.lexists(full):
             problems.append('does not exist')
-        if absolute != os.path.isabs(e):
+        if not mixed and absolute != os.path.isabs(e):
             problems.append('absolute pattern -> relative result' if absolute else 'relative pattern -> absolute result')
         isdir = os.path.isdir(full)
         if e.endswith('/') and not isdir:
@@ -131,8 +131,21 @@ def one_pattern(ctx, tr, rng, k, j):
         # list / BRACE / SPLIT / NEGATE forms
         t2 = gen.ser(gen.tree_pattern(rng, ents))
         single = False
-        form = rng.choice(['list', 'brace', 'split', 'negate', 'exclude'])
-        if form == 'list':
+        form = rng.choice(['list', 'brace', 'split', 'negate', 'exclude', 'abs-then-rel', 'rel-then-abs', 'abs|rel'])
+        if form in ('abs-then-rel', 'rel-then-abs', 'abs|rel'):
+            # absolute and relative patterns in one call: each keeps its own spelling and its own base
+            a = G.escape(tr.root) + '/' + t2.lstrip('/')
+            if text.startswith('/'):
+                return
+            if form == 'abs-then-rel':
+                pats = [a, text]
+            elif form == 'rel-then-abs':
+                pats = [text, a]
+            else:
+                pats = a + '|' + text
+                fn.append('SPLIT')
+            ctx.count('mixed_absolute_relative_lists')
+        elif form == 'list':
             pats = [text, t2]
         elif form == 'brace':
             pats = '{' + text + ',' + t2 + '}'
@@ -154,7 +167,7 @@ def one_pattern(ctx, tr, rng, k, j):
     except Exception as e:  # noqa: BLE001
         ctx.disagree(f'glob raised {type(e).__name__}', dict(wit, exception=repr(e)[:200]))
         return
-    check_elements(ctx, tr, res, text, fn, absolute, trail, single, wit)
+    check_elements(ctx, tr, res, text, fn, absolute, trail, single, wit, mixed=not isinstance(pats, str) and any(os.path.isabs(x) for x in pats) or (isinstance(pats, str) and '|' in pats and os.path.isabs(pats)))
     if res:
         ctx.mark_nontrivial((k, j))
     if j == 0 and k % 6 == 0:
